@@ -43,8 +43,10 @@ def xform_jobs(tier):
                 if nblk == 2 and off not in (0, 1):
                     continue
                 defs = dict(alg_defs(a), NBLK=nblk, OFF=off)
+                if a.startswith("sha2") or a.startswith("sha3") or a.startswith("sha5"):
+                    defs["V_REF_ALT"] = None        # OR-forms of Ch/Maj; == the standard's XOR-forms by the lemma job
                 shape = "%s transform, %d block(s), block at offset %d of its object, state+block+context symbolic" % (a, nblk, off)
-                uw = A.get("ctx_unwind", 700)
+                uw = 100
                 out.append({"name": "xform-%s-n%d-o%d-eq" % (a, nblk, off), "src": "xform.c", "defs": defs, "unwind": uw,
                             "solver": "minisat", "flags": SMT_FLAGS, "prop_include": "standard compression|EXTRA",
                             "shape": shape, "desc": "portable transform == compression function of the standard "
@@ -57,36 +59,106 @@ def xform_jobs(tier):
     return out
 
 
-def splits_for(a, n, tier):
-    B = ALGS[a]["blk"]
+FULL = ("md5", "sha1", "sha256", "sha512")     # variants with their own code paths; sha224/sha384 only differ by IV/size
+
+
+def split_points(a, n, tier):
+    B, LB = ALGS[a]["blk"], ALGS[a]["lenb"]
     pts = {0, 1, n - 1, n}
-    for k in (1, 2, 3):
-        for d in ((-1, 0, 1) if tier == "quick" else (-2, -1, 0, 1, 2)):
-            pts.add(k * B + d)
-    pts |= {B - ALGS[a]["lenb"] - 1, B - ALGS[a]["lenb"]}
-    pts = sorted(p for p in pts if 0 <= p <= n)
+    for k in (1, 2):
+        pts |= {k * B - 1, k * B, k * B + 1}
+    if tier == "thorough" and a in FULL:
+        pts |= {2, B - 2, B + 2, B - LB - 1, B - LB, 2 * B - 2, 2 * B + 2}
+    return sorted(p for p in pts if 0 <= p <= n)
+
+
+def splits_for(a, n, tier):
+    pts = split_points(a, n, tier)
     return [(s1, s2) for s1 in pts for s2 in pts if s1 <= s2]
+
+
+CHUNK = 6       # partitions per job: symbolic execution time grows quadratically with the number of runs in one job
 
 
 def stream_jobs(tier):
     out = []
     for a, A in ALGS.items():
         B, LB = A["blk"], A["lenb"]
+        edge = [0, 1, B - LB - 1, B - LB, B - 1, B, B + 1, 2 * B - LB - 1, 2 * B - LB, 2 * B, 2 * B + LB + 1]
         if tier == "quick":
-            lens = sorted({0, 1, B - LB - 1, B - LB, B - 1, B, B + 1, 2 * B - LB - 1, 2 * B - LB, 2 * B, 2 * B + LB + 1})
+            lens = [0, B - LB - 1, B - LB, B + 1, 2 * B + LB + 1] if a in FULL else [B - LB, B + 1]
+            few = True
         else:
-            lens = list(range(0, 2 * B + LB + 2))
+            lens = list(range(0, 2 * B + LB + 2)) if a in FULL else edge
+            few = False
         for n in lens:
-            sp = splits_for(a, n, tier)
-            defs = dict(alg_defs(a), LEN=n, SPLITS="%s" % " ".join("X(%d,%d)" % s for s in sp), ENTRY_POINTS=None)
-            out.append({"name": "stream-%s-L%d" % (a, n), "src": "stream.c", "defs": defs,
-                        "unwind": max(A.get("ctx_unwind", 700), padblocks(a, n) * B + 2), "solver": "cadical",
-                        "shape": "%s message length %d, %d partitions into <= 3 updates (split points around block "
-                                 "boundaries), + one-shot + hex-string; bytes and transform results symbolic" % (a, n, len(sp)),
-                        "desc": "transform log == pad(msg) blocks from the standard IV, digest/hex == serialised last "
-                                "state, context zero after final", "cost": 1 + len(sp) // 20})
+            if tier == "thorough" and n not in edge:
+                # in-between lengths: one-, two- and three-update partitions at a few places
+                sp = sorted({(0, 0), (n, n), (1, n), (n // 2, n // 2), (1, n - 1 if n else 0), (min(B, n), min(B + 1, n))})
+                sp = [x for x in sp if 0 <= x[0] <= x[1] <= n]
+            else:
+                sp = splits_for(a, n, tier)
+                if few and a not in FULL:
+                    sp = sp[::3]
+            chunks = [sp[i:i + CHUNK] for i in range(0, len(sp), CHUNK)] or [[(0, 0)]]
+            for ci, ch in enumerate(chunks):
+                defs = dict(alg_defs(a), LEN=n, SPLITS=" ".join("X(%d,%d)" % x for x in ch))
+                if ci == 0:
+                    defs["ENTRY_POINTS"] = None
+                out.append({"name": "stream-%s-L%d-p%d" % (a, n, ci), "src": "stream.c", "defs": defs,
+                            "unwind": 900, "solver": "cadical",
+                            "shape": "%s message length %d, update partitions (s1,s2) = %s%s; message bytes and all "
+                                     "transform results symbolic" % (a, n, ",".join("(%d,%d)" % x for x in ch),
+                                                                     " + one-shot + hex-string entry points" if ci == 0 else ""),
+                            "desc": "transform log == pad(msg) blocks from the standard IV, digest/hex == serialised last "
+                                    "state, context zero after final", "cost": len(ch)})
     return out
 
 
+def step_shapes(a, tier):
+    B, LB = ALGS[a]["blk"], ALGS[a]["lenb"]
+    if tier == "quick":
+        if a not in FULL:
+            return [(B - LB, 1), (1, 2 * B)]
+        return [(0, 0), (0, B), (1, B - 2), (1, B - 1), (B - LB - 1, 0), (B - LB, 0), (B - 1, 1), (B - 1, B + 2), (3, 2 * B)]
+    rs = [0, 1, 2, B - LB - 2, B - LB - 1, B - LB, B - LB + 1, B // 2, B - 2, B - 1] if a in FULL else [0, B - LB, B - 1]
+    out = set()
+    for r in rs:
+        for l in (0, 1, B - r - 1, B - r, B - r + 1, 2 * B - r, 2 * B + 1, 3 * B - r + 1):
+            if l >= 0:
+                out.add((r, l))
+    return sorted(out)
+
+
+def step_jobs(tier):
+    out = []
+    for a, A in ALGS.items():
+        B = A["blk"]
+        for r, l in step_shapes(a, tier):
+            us = ["%s:%d" % (A["upd"], l // B + 3)] if A.get("upd") else []
+            out.append({"name": "step-%s-R%d-L%d" % (a, r, l), "src": "step.c", "defs": dict(alg_defs(a), R=r, L=l),
+                        "unwind": 900, "unwindset": us, "solver": "cadical",
+                        "shape": "%s mid-stream context: ANY byte count n with n mod %d = %d (n symbolic), any chaining "
+                                 "value/tail/other context bytes; update(%d bytes) then final" % (a, B, r, l),
+                        "desc": "inductive step: blocks given to the transform, chaining, count(+carry), buffer tail after "
+                                "update; padding with the bit length of n+L, digest, zeroisation after final",
+                        "cost": 10, "timeout": 200 if tier == "quick" else 1500})
+        if tier == "thorough" and a in FULL:
+            l = B + 1
+            us = ["%s:%d" % (A["upd"], l // B + 3)] if A.get("upd") else []
+            out.append({"name": "step-%s-Rsym-L%d" % (a, l), "src": "step.c", "defs": dict(alg_defs(a), L=l),
+                        "unwind": 900, "unwindset": us, "solver": "cadical",
+                        "shape": "%s mid-stream context: ANY byte count n (residue n mod %d symbolic too); update(%d "
+                                 "bytes) then final" % (a, B, l),
+                        "desc": "inductive step for all residues in one query", "cost": 300, "timeout": 2400})
+    return out
+
+
+def lemma_jobs(tier):
+    return [{"name": "lemma-ch-maj", "src": "lemma.c", "defs": {}, "unwind": 2, "solver": "cadical",
+             "shape": "all 32-bit and 64-bit x, y, z",
+             "desc": "OR-forms of Ch/Maj (used by the SHA-2 references in the -eq jobs) == XOR-forms of FIPS 180-4"}]
+
+
 def jobs(tier):
-    return xform_jobs(tier) + stream_jobs(tier)
+    return lemma_jobs(tier) + xform_jobs(tier) + stream_jobs(tier) + step_jobs(tier)
